@@ -377,6 +377,9 @@ class MachO(BinFormat):
             elif op == BIND_OPCODE_SET_SYMBOL_TRAILING_FLAGS_IMM:
                 r.flags = im
                 nulchar = raw.find(b"\0", cur)
+                if nulchar < 0:
+                    # (cur would restart from 0 and loop forever)
+                    raise MachOError("unterminated symbol in bind opcodes")
                 if nulchar > cur:
                     r.symbol = raw[cur:nulchar]
                 cur = nulchar + 1
